@@ -235,11 +235,11 @@ def detail_of(e, v):
 def judge(ck, events, label):
     if not events:
         return
-    slim = [{k: v for k, v in e.items() if k not in ("text", "rendered")} for e in events]
-    verdicts = ck.trace("DepSet_Trace", slim, label=label, timeout=1700)
     by = {e["tid"]: e for e in events}
-    for v in verdicts:
-        ck.violation(v["clause"], detail_of(by[v["tid"]], v))
+    for lo in range(0, len(events), 12000):
+        slim = [{k: v for k, v in e.items() if k not in ("text", "rendered")} for e in events[lo:lo + 12000]]
+        for v in ck.trace("DepSet_Trace", slim, label=label + (f"[{lo}:]" if lo else ""), timeout=1700):
+            ck.violation(v["clause"], detail_of(by[v["tid"]], v))
 
 
 def run(ck):
